@@ -11,6 +11,7 @@ byte bb); `-` is the empty string.  Bytes on output: hex up to 40 bytes, otherwi
 `C15 L <n>`                             → `<nibble> <ext>` | `err`
 `C15 D <bytes>`   (a complete frame)    → `unparsable` | `<msg>`
 `C15 S <code> <token> <payload> <num>:<val>*` → `<bytes>` | `err`
+`C15 P <code> <token> <payload> <num>:<val>*` → events of `_TCPPooling.send_message` (`-` = none)
 `C15 F <maxsize> <chunk>*`              → events of a whole session, then
                                           ` |spool=<bytes> csm=<-|mms/bw> closed=<0|1>`
 `<msg>` = code, token, options (`<num>:<val>` joined by commas, or a dash) and payload,
@@ -134,6 +135,16 @@ def handleC15 (args : List String) : String :=
         match serialize { code, token, opts, payload } with
         | some b => render b
         | none => "err"
+    | _, _, _, _ => "bad-op"
+  | "P" :: code :: token :: payload :: opts =>
+    match code.toNat?, parseBytes token, parseBytes payload, opts.mapM parseOpt with
+    | some code, some token, some payload, some opts =>
+      if (deltas 0 opts).contains 65804 ∨ (opts.map fun o => o.val.length).contains 65804 then
+        "out-of-model"
+      else if code ≥ 256 then "out-of-model"
+      else
+        let r := poolSend { code, token, opts, payload }
+        if r.isEmpty then "-" else " ".intercalate (r.map renderOut)
     | _, _, _, _ => "bad-op"
   | "F" :: maxSize :: chunks =>
     match maxSize.toNat?, chunks.mapM parseBytes with
